@@ -56,13 +56,15 @@ def mk_val(v):
     return None if v == 3 else "" if v == 2 else v
 
 
-def drive(ctx, kind, cap, ops, keytype="int"):
+def drive(ctx, kind, cap, ops, keytype="int", sparse=False):
     with FuelSession(FUEL) as fs:
-        _drive(ctx, fs, kind, cap, ops, keytype)
+        _drive(ctx, fs, kind, cap, ops, keytype, sparse)
 
 
-def _drive(ctx, fs, kind, cap, ops, keytype):
+def _drive(ctx, fs, kind, cap, ops, keytype, sparse=False):
     lru = kind == "lru"
+    if sparse:
+        ctx.label("observed-only-through-its-own-operations")
     name = "LRUCache" if lru else "LFUCache"
     c = (LRUCache if lru else LFUCache)(cap)
     d = {}
@@ -355,6 +357,15 @@ def _drive(ctx, fs, kind, cap, ops, keytype):
                     as_dict = bool(len(pairs) % 2)
                     arg = dict(pairs) if as_dict else list(pairs)
                     seq = list(arg.items()) if as_dict else list(arg)
+                    if sparse:
+                        # not observed after every step: the admissible models may still differ in their order; observe now
+                        ks0 = list(keys_now("update"))
+                        keep0 = {(p, m) for p, m in cands if list(m) == ks0}
+                        if not keep0:
+                            ctx.fail("%s/update/iteration-order-inadmissible" % name,
+                                     "iteration order %r before %r is not most-to-least recently used for any admissible model %s" % (ks0, o, sorted(cands, key=repr)[:4]))
+                            raise _Stop()
+                        cands = keep0
                     order = list(next(iter(cands))[1])
                     content = dict(d)
                     for kk, vv in seq:
@@ -439,7 +450,14 @@ def _drive(ctx, fs, kind, cap, ops, keytype):
                         store("update", kk, vv)
             else:
                 raise AssertionError(op)
-            # observation after every step
+            # observation after every step - except in "sparse" histories (a quarter of the drawn ones), which are observed only
+            # through their own operations and at evictions, and in full after the last step: iterating after every step would
+            # refresh read-side state (a remembered most-recently-used node, round 17) before a single lookup can go wrong
+            if sparse and o is not ops[-1]:
+                ln = run("len", lambda: len(c))
+                if not ctx.need(ln == len(d), "%s/%s/len-wrong" % (name, op), lambda: "len()=%d, content has %d" % (ln, len(d))):
+                    raise _Stop()
+                continue
             ks = keys_now(op)
             ln = run("len", lambda: len(c))
             if not ctx.need(ln == len(d), "%s/%s/len-wrong" % (name, op), lambda: "len()=%d, content has %d" % (ln, len(d))):
@@ -523,6 +541,7 @@ def case_strategy(kind, restore_heavy=False):
         lambda t: _splice(t[0], t[1]))
     return st.fixed_dictionaries({
         "kind": st.just(kind), "cap": st.integers(1, 6), "keytype": st.sampled_from(["int", "int", "str", "tuple", "eqmix"]),
+        "observe": st.sampled_from(["each", "each", "each", "sparse"]),
         "ops": st.one_of(hist, hist, hist, hist, hist.map(list), bursty)})
 
 
